@@ -82,3 +82,26 @@ Proof.
   apply (H enc_index dec_index dec_enc_index w_hash 1%nat w_d0 w_mb [105; 49] [IReopen; IOp w_add_again] Hr).
   vm_compute. auto.
 Qed.
+
+(** non-vacuity of the guards: an operation without eviction that has a crash state equal to neither...
+    no — equal to the NEW state before it returns, and one equal to the OLD state (so both disjuncts of
+    crash_atomic_partial occur); and [never_generated] / [never_reissued] hold for a real continuation. *)
+Example atomic_partial_both_sides :
+  evictions dec_index w_hash 0 w_add2 w_d0 = 0%nat /\
+  (exists d', crash_disk 3 None (steps enc_index dec_index w_hash 0 w_add2 w_d0) w_d0 = Some d' /\
+              view dec_index d' w_mb = view dec_index w_d0 w_mb) /\
+  (exists d', crash_disk 9 None (steps enc_index dec_index w_hash 0 w_add2 w_d0) w_d0 = Some d' /\
+              view dec_index d' w_mb = view dec_index (exec enc_index dec_index w_hash 0 w_add2 w_d0) w_mb /\
+              view dec_index d' w_mb <> view dec_index w_d0 w_mb).
+Proof.
+  split; [vm_compute; reflexivity|]. split.
+  - eexists. split; [vm_compute; reflexivity|]. vm_compute. reflexivity.
+  - eexists. split; [vm_compute; reflexivity|]. split; [vm_compute; reflexivity | vm_compute; discriminate].
+Qed.
+
+Example never_generated_satisfiable :
+  never_generated [105; 49] [IReopen; IOp w_add2; IOp (Seen w_mb [105; 50])].
+Proof.
+  intros o [H|[H|[H|[]]]]; try discriminate; inversion H; subst; simpl; auto.
+  intros [F|[]]. discriminate.
+Qed.
